@@ -13,7 +13,7 @@ import (
 
 // RuleN2: Schema.ContentJSight is only meaningful for the JSight notation.
 func RuleN2(c *Ctx) {
-	sc := c.Run.Begin("N2", "Schema.ContentJSight is dereferenced only where the same schema is known to be of JSight notation (Notation test, nil test, fresh assignment, or the JSight-only rawPathVariable.schema slot whose every store is checked)", 20)
+	sc := c.Run.Begin("N2", "Schema.ContentJSight is dereferenced only where the same schema is known to be of JSight notation (Notation test, nil test, fresh assignment, or the JSight-only rawPathVariable.schema slot whose every store is checked)", 2)
 	defer sc.End()
 	content := c.Field("catalog", "Schema", "ContentJSight")
 	notationF := c.Field("catalog", "Schema", "Notation")
